@@ -32,6 +32,9 @@ type c19LoadCase struct {
 	Assign     []int      `json:"assign"` // goroutine i loads Inputs[Assign[i]]
 	Rounds     int        `json:"rounds"`
 	GoMaxProcs int        `json:"gomaxprocs"`
+	// Shared: the goroutines loading the same input pass one and the same ConfigDetails value (the same
+	// ConfigFiles slice and Environment map), as a caller that loads "the same input" several times would
+	Shared bool `json:"shared_details,omitempty"`
 }
 
 func genC19Load(t *rapid.T) c19LoadCase {
@@ -61,8 +64,12 @@ func genC19Load(t *rapid.T) c19LoadCase {
 			doc["name"] = "named"
 		}
 		files = append(files, memFile{Name: "compose.yaml", Content: emitYAML(doc, nil)})
-		cs.Inputs = append(cs.Inputs, loadCase{Files: files, Main: []string{"compose.yaml"}, Env: map[string]string{"SECRET_token": "s", "SECRET_cert": "c", "SECRET_apikey": "k"}})
+		in := loadCase{Files: files, Main: []string{"compose.yaml"}, Env: map[string]string{"SECRET_token": "s", "SECRET_cert": "c", "SECRET_apikey": "k"}}
+		// the project name may come from the caller or be worked out from the files
+		in.Opts.NameNotImperative = rapid.Bool().Draw(t, "name-from-files")
+		cs.Inputs = append(cs.Inputs, in)
 	}
+	cs.Shared = rapid.Bool().Draw(t, "shared-details")
 	g := rapid.IntRange(2, 8).Draw(t, "goroutines")
 	for i := 0; i < g; i++ {
 		cs.Assign = append(cs.Assign, rapid.IntRange(0, n-1).Draw(t, "assign"))
@@ -90,6 +97,13 @@ func c19LoadCheck(c *Ctx, cs c19LoadCase) *Failure {
 	}
 	// the concurrent rounds come first: a load leaves traces in package-level state (the list of files
 	// already warned about), so a sequential load beforehand would hide races on first sight of a file
+	shared := make([]types.ConfigDetails, len(cs.Inputs))
+	for i, in := range cs.Inputs {
+		shared[i] = in.details(roots[i], false)
+	}
+	if cs.Shared {
+		c.Label("shared-config-details")
+	}
 	all := make([][]loadResult, cs.Rounds)
 	for round := 0; round < cs.Rounds; round++ {
 		start := make(chan struct{})
@@ -100,7 +114,16 @@ func c19LoadCheck(c *Ctx, cs c19LoadCase) *Failure {
 			go func(g, idx int) {
 				defer wg.Done()
 				<-start
-				results[g] = cs.Inputs[idx].loadAt(roots[idx], false, 0)
+				if cs.Shared {
+					// the ConfigFiles slice (and its backing array) is shared; the Environment map is a private
+					// copy, because the loader writes COMPOSE_PROJECT_NAME into the caller's map (known finding
+					// c19:load-writes-caller-environment, demonstrated by the sub-check caller-inputs)
+					cd := shared[idx]
+					cd.Environment = cd.Environment.Clone()
+					results[g] = cs.Inputs[idx].loadDetails(cd, 0)
+				} else {
+					results[g] = cs.Inputs[idx].loadAt(roots[idx], false, 0)
+				}
 			}(g, idx%len(cs.Inputs))
 		}
 		close(start)
@@ -136,6 +159,46 @@ func c19LoadCheck(c *Ctx, cs c19LoadCase) *Failure {
 	}
 	c.Label(fmt.Sprintf("goroutines:%d", len(cs.Assign)))
 	c.NonTrivial(jsonKey(cs), map[string]any{"goroutines": len(cs.Assign), "inputs": len(cs.Inputs), "rounds": cs.Rounds, "first_input": cs.Inputs[0].Files[len(cs.Inputs[0].Files)-1].Content})
+	return nil
+}
+
+// ---- (1b) a load leaves the caller's input alone (what makes sharing one input between loads safe) ----
+
+func c19CallerInputsCheck(c *Ctx, cs c19LoadCase) *Failure {
+	if len(cs.Inputs) == 0 {
+		return nil
+	}
+	in := cs.Inputs[0]
+	root, cleanup, err := in.materialise()
+	if err != nil {
+		return failf("panic@harness:materialise", "%v", err)
+	}
+	defer cleanup()
+	cd := in.details(root, false)
+	envBefore := cd.Environment.Clone()
+	filesBefore := append([]types.ConfigFile{}, cd.ConfigFiles...)
+	r := in.loadDetails(cd, 0)
+	if r.Panic != nil {
+		return r.Panic
+	}
+	c.NonTrivial(jsonKey(cs.Inputs[0]), map[string]any{"opts": in.Opts})
+	for i, f := range cd.ConfigFiles {
+		b := filesBefore[i]
+		if f.Filename != b.Filename || (f.Content == nil) != (b.Content == nil) || (f.Config == nil) != (b.Config == nil) {
+			return failf("c19:load-writes-caller-config-files", "after the load ConfigFiles[%d] of the caller changed: content set: %v -> %v, parsed model set: %v -> %v",
+				i, b.Content != nil, f.Content != nil, b.Config != nil, f.Config != nil)
+		}
+	}
+	if !reflect.DeepEqual(map[string]string(envBefore), map[string]string(cd.Environment)) {
+		var added []string
+		for k, v := range cd.Environment {
+			if old, ok := envBefore[k]; !ok || old != v {
+				added = append(added, k+"="+v)
+			}
+		}
+		sort.Strings(added)
+		return failf("c19:load-writes-caller-environment", "the load wrote %v into the caller's Environment map: two loads given the same map race on it", added)
+	}
 	return nil
 }
 
@@ -408,6 +471,7 @@ func c19SharedCheck(c *Ctx, cs c19SharedCase) *Failure {
 
 func TestC19(t *testing.T) {
 	c := NewCtx(t, "C19")
+	RunRapid(c, t, Sub[c19LoadCase]{Kind: "caller-inputs", Quick: 60, Thorough: 2000, Gen: genC19Load, Check: c19CallerInputsCheck})
 	RunRapid(c, t, Sub[c19LoadCase]{Kind: "concurrent-loads", Quick: 160, Thorough: 6000, Gen: genC19Load, Check: c19LoadCheck})
 	RunRapid(c, t, Sub[c19FanCase]{Kind: "fan-out", Quick: 600, Thorough: 60_000,
 		Gen: func(t *rapid.T) c19FanCase {
